@@ -1,5 +1,15 @@
 package props
 
+import (
+	"go/token"
+	"go/types"
+	"sort"
+	"strings"
+
+	"golang.org/x/tools/go/ssa"
+
+	"chverif/core"
+)
 
 func init() { register("C01", runC01) }
 
@@ -13,5 +23,467 @@ func runC01(c *Ctx) {
 		n := runBufDisc(c, p, "C01.append")
 		c.R.Count("encoder functions["+cfg.Name+"]", n)
 		c.R.Floor("C01.append", cfg.Name, n, 90)
+		ruleColumnShape(c, p)
+		ruleElementWidth(c, p, "C01.width")
 	}
+	p := c.Prog(core.CfgDefault)
+	if p == nil {
+		return
+	}
+	ruleBlockShape(c, p)
+	ruleKeyWidth(c, p)
+	ruleForward(c, p)
+	c.R.Assumptions = append(c.R.Assumptions,
+		"decided: append-only encoders, agreement of encoder / vectored writer / decoder on sequence and width of what is on the wire in every build configuration and revision, LowCardinality key width and per-width key columns, state/prepare forwarding of wrappers; not decided: equality of decoded and encoded values for all inputs")
+}
+
+// ruleColumnShape: L(EncodeColumn) ⊆ L(DecodeColumn), same for state codecs.
+func ruleColumnShape(c *Ctx, p *core.Program) {
+	rule := "C01.shape"
+	c.R.Rule(rule, "E2 containment per column type (generic origins included): every atom sequence EncodeColumn can emit (wire primitives, raw appends, nested codecs keyed by the access path of the inner column, e.g. recv.Offsets / recv.Data / recv.keys16) is consumed by a success path of DecodeColumn; likewise EncodeState ⊆ DecodeState; the block encoder is contained in DecodeRawBlock composed with Results.DecodeResult and with Results.decodeAuto at every revision sample")
+	cfg := p.Cfg.Name
+	cls := wireClassifier(p, true)
+	n := 0
+	for _, ct := range columnTypes(p) {
+		for _, pair := range [][2]string{{"EncodeColumn", "DecodeColumn"}, {"EncodeState", "DecodeState"}} {
+			enc, dec := methodOf(p, ct, pair[0]), methodOf(p, ct, pair[1])
+			if enc == nil && dec == nil {
+				continue
+			}
+			key := "column/" + ct.Obj().Name() + "/" + pair[0]
+			if enc == nil || dec == nil || enc.Blocks == nil || dec.Blocks == nil {
+				if pair[0] == "EncodeState" {
+					c.R.Bad(rule, key, cfg, "", "column has only one of EncodeState / DecodeState")
+				}
+				continue
+			}
+			n++
+			o := langOpts{p: p, classify: cls, revision: -1}
+			ea, da := buildLang(enc, o), buildLang(dec, o)
+			if len(ea.undec)+len(da.undec) > 0 {
+				c.R.Unk(rule, key, cfg, p.Pos(enc.Pos()), strings.Join(append(ea.undec, da.undec...), "; "))
+				continue
+			}
+			ed, dd := ea.determinize(), da.determinize()
+			ed.final[0], dd.final[0] = true, true // zero rows
+			if ok, w := contained(ed, dd); !ok {
+				c.R.Bad(rule, key, cfg, p.Pos(enc.Pos()), sprintf("%s can emit [%s], which no success path of %s consumes", pair[0], strings.Join(w, " "), pair[1]))
+				continue
+			}
+			c.R.Ok(rule, key, cfg, p.Pos(enc.Pos()), "contained; e.g. ["+strings.Join(ed.sampleWords(2, 10), "] [")+"]")
+		}
+	}
+	c.R.Count("column codec pairs["+cfg+"]", n)
+	c.R.Floor(rule, cfg, n, 40)
+}
+
+// ruleBlockShape: EncodeRawBlock ⊆ DecodeRawBlock∘DecodeResult / decodeAuto.
+func ruleBlockShape(c *Ctx, p *core.Program) {
+	rule := "C01.shape"
+	cfg := p.Cfg.Name
+	enc := p.Method(core.PkgProto, "Block", "EncodeRawBlock")
+	dec := p.Method(core.PkgProto, "Block", "DecodeRawBlock")
+	dr := p.Method(core.PkgProto, "Results", "DecodeResult")
+	da := p.Method(core.PkgProto, "Results", "decodeAuto")
+	if !c.must(p, "Block.EncodeRawBlock / DecodeRawBlock / Results.DecodeResult / decodeAuto", enc != nil && dec != nil && dr != nil && da != nil) {
+		return
+	}
+	base := wireClassifier(p, false)
+	for _, target := range []*ssa.Function{dr, da} {
+		cls := func(fn *ssa.Function, in ssa.Instruction) atomDecision {
+			d := base(fn, in)
+			if d.kind == akAtom && d.label == "DYN:DecodeResult" {
+				if fn == target {
+					return atomDecision{kind: akDead} // decodeAuto falls back to DecodeResult once targets exist
+				}
+				return atomDecision{kind: akInline, inline: target}
+			}
+			return d
+		}
+		th := thresholds(p)
+		seen := map[string]bool{}
+		key := "block/EncodeRawBlock⊆" + target.Name()
+		bad := false
+		for _, r := range revisionSamples(p, c.Thorough()) {
+			sig := gateSignature(th, r)
+			if seen[sig] {
+				continue
+			}
+			seen[sig] = true
+			o := langOpts{p: p, classify: cls, revision: r}
+			ea, dla := buildLang(enc, langOpts{p: p, classify: base, revision: r}), buildLang(dec, o)
+			if len(ea.undec)+len(dla.undec) > 0 {
+				bad = true
+				c.R.Unk(rule, key, cfg, p.Pos(enc.Pos()), strings.Join(append(ea.undec, dla.undec...), "; "))
+				break
+			}
+			if ok, w := contained(ea.determinize(), dla.determinize()); !ok {
+				bad = true
+				c.R.Bad(rule, key, cfg, p.Pos(enc.Pos()), sprintf("revision %d: the block encoder can emit [%s], which the decoder does not consume", r, strings.Join(w, " ")))
+				break
+			}
+		}
+		if !bad {
+			c.R.Ok(rule, key, cfg, p.Pos(enc.Pos()), sprintf("contained under %d gate valuations", len(seen)))
+		}
+	}
+}
+
+// ruleKeyWidth: LowCardinality key width selection and per-width key columns.
+func ruleKeyWidth(c *Ctx, p *core.Program) {
+	rule := "C01.keywidth"
+	c.R.Rule(rule, "in ColLowCardinality.Prepare the cascade `n < K -> width b` is extracted and each branch must satisfy K-1 <= 2^b (keys are 0..n-1); in Prepare, EncodeColumn, WriteColumn and DecodeColumn every `case KeyUIntN` touches only the keysN column")
+	cfg := p.Cfg.Name
+	prep := p.Method(core.PkgProto, "ColLowCardinality", "Prepare")
+	if !c.must(p, "ColLowCardinality.Prepare", prep != nil) {
+		return
+	}
+	keyBits := map[int64]int{}
+	for _, n := range []string{"KeyUInt8", "KeyUInt16", "KeyUInt32", "KeyUInt64"} {
+		v, ok := constOf(p, core.PkgProto, n)
+		if !c.must(p, "const "+n, ok) {
+			return
+		}
+		keyBits[v] = map[string]int{"KeyUInt8": 8, "KeyUInt16": 16, "KeyUInt32": 32, "KeyUInt64": 64}[n]
+	}
+	// stores to c.key of a constant, each under a chain of `n < K` tests
+	nBr := 0
+	for _, b := range prep.Blocks {
+		for _, in := range b.Instrs {
+			s, ok := in.(*ssa.Store)
+			if !ok {
+				continue
+			}
+			fa, ok := s.Addr.(*ssa.FieldAddr)
+			if !ok || fieldNameOnly(fa.X.Type(), fa.Field) != "key" {
+				continue
+			}
+			kv, ok := core.ConstInt(s.Val)
+			if !ok {
+				c.R.Unk(rule, "Prepare/key-store", cfg, p.Pos(s.Pos()), "key width is not chosen from a constant")
+				continue
+			}
+			bits := keyBits[kv]
+			nBr++
+			// the guarding comparison: the If in the single predecessor chain whose true edge leads here
+			if len(b.Preds) != 1 {
+				c.R.Unk(rule, sprintf("Prepare/width%d", bits), cfg, p.Pos(s.Pos()), "branch has several predecessors")
+				continue
+			}
+			pred := b.Preds[0]
+			ifi, ok := pred.Instrs[len(pred.Instrs)-1].(*ssa.If)
+			if !ok {
+				continue
+			}
+			if pred.Succs[0] != b {
+				// else-branch: the widest key
+				if bits == 64 {
+					c.R.Ok(rule, "Prepare/width64", cfg, p.Pos(s.Pos()), "fallback branch uses 64-bit keys")
+				} else {
+					c.R.Bad(rule, sprintf("Prepare/width%d", bits), cfg, p.Pos(s.Pos()), "the fallback branch does not use the widest key")
+				}
+				continue
+			}
+			bo, ok := ifi.Cond.(*ssa.BinOp)
+			if !ok {
+				c.R.Unk(rule, sprintf("Prepare/width%d", bits), cfg, p.Pos(s.Pos()), "guard is not a comparison")
+				continue
+			}
+			k, okc := constUint(bo.Y)
+			if !okc {
+				c.R.Unk(rule, sprintf("Prepare/width%d", bits), cfg, p.Pos(s.Pos()), "guard does not compare with a constant")
+				continue
+			}
+			// n < K : keys 0..K-2 ; n <= K : keys 0..K-1
+			maxKey := new(bigU).set(k)
+			switch bo.Op {
+			case token.LSS:
+				maxKey.sub(2)
+			case token.LEQ:
+				maxKey.sub(1)
+			default:
+				c.R.Unk(rule, sprintf("Prepare/width%d", bits), cfg, p.Pos(s.Pos()), "unexpected comparison operator")
+				continue
+			}
+			if maxKey.fits(bits) {
+				c.R.Ok(rule, sprintf("Prepare/width%d", bits), cfg, p.Pos(s.Pos()), sprintf("n %s %d -> %d-bit keys: largest key fits", bo.Op, k, bits))
+			} else {
+				c.R.Bad(rule, sprintf("Prepare/width%d", bits), cfg, p.Pos(s.Pos()), sprintf("n %s %d selects %d-bit keys, but the largest key does not fit: distinct values share a key", bo.Op, k, bits))
+			}
+		}
+	}
+	if nBr < 4 {
+		c.R.Unk(rule, "Prepare/branches", cfg, p.Pos(prep.Pos()), sprintf("%d key-width branches found, expected 4", nBr))
+	}
+	// per-width key columns
+	for _, mn := range []string{"Prepare", "EncodeColumn", "WriteColumn", "DecodeColumn"} {
+		fn := p.Method(core.PkgProto, "ColLowCardinality", mn)
+		if fn == nil {
+			c.R.Unk(rule, "ColLowCardinality."+mn, cfg, "", "method missing")
+			continue
+		}
+		tbl := switchTable(fn, func(v ssa.Value) bool { return core.IsNamed(v.Type(), core.PkgProto, "CardinalityKey") })
+		// closures (WriteColumn) do not contain the switch; fine
+		if len(tbl) < 4 {
+			c.R.Unk(rule, "ColLowCardinality."+mn+"/switch", cfg, p.Pos(fn.Pos()), sprintf("switch on the key has %d cases, expected 4", len(tbl)))
+			continue
+		}
+		okAll := true
+		for kv, blk := range tbl {
+			want := sprintf("keys%d", keyBits[kv])
+			for _, x := range fn.Blocks {
+				if x != blk && !blk.Dominates(x) {
+					continue
+				}
+				for _, in := range x.Instrs {
+					fa, ok := in.(*ssa.FieldAddr)
+					if !ok {
+						continue
+					}
+					fname := fieldNameOnly(fa.X.Type(), fa.Field)
+					if strings.HasPrefix(fname, "keys") && fname != "keys" && fname != want {
+						okAll = false
+						c.R.Bad(rule, sprintf("ColLowCardinality.%s/case%d", mn, keyBits[kv]), cfg, p.Pos(fa.Pos()), sprintf("case for %d-bit keys touches %s", keyBits[kv], fname))
+					}
+				}
+			}
+		}
+		if okAll {
+			c.R.Ok(rule, "ColLowCardinality."+mn+"/switch", cfg, p.Pos(fn.Pos()), "each case uses its own key column")
+		}
+	}
+}
+
+// tiny helpers for 65-bit arithmetic on thresholds
+type bigU struct {
+	v   uint64
+	neg bool
+}
+
+func (b *bigU) set(v uint64) *bigU { b.v = v; return b }
+func (b *bigU) sub(n uint64) {
+	if b.v < n {
+		b.neg = true
+		b.v = 0
+		return
+	}
+	b.v -= n
+}
+func (b *bigU) fits(bits int) bool {
+	if b.neg || bits >= 64 {
+		return true
+	}
+	return b.v <= (uint64(1)<<uint(bits))-1
+}
+
+func constUint(v ssa.Value) (uint64, bool) {
+	cst, ok := v.(*ssa.Const)
+	if !ok || cst.Value == nil {
+		return 0, false
+	}
+	return cst.Uint64(), true
+}
+
+// ruleForward: wrappers forward state and prepare to their inner columns.
+func ruleForward(c *Ctx, p *core.Program) {
+	rule := "C01.forward"
+	c.R.Rule(rule, "every column type that holds another column behind an interface-typed field (Array, Map, Nullable, LowCardinality, Tuple, Named, Auto, the Alias/Wrap wrapper) implements EncodeState and DecodeState and calls the same method on each such field, in the same order - Block/Results find the state prefix only through a type assertion on the outer column; Prepare is forwarded wherever a Preparable column is a valid inhabitant (oracle: not inside LowCardinality)")
+	cfg := p.Cfg.Name
+	colIface := p.Pkgs[core.PkgProto].Types.Scope().Lookup("Column")
+	if !c.must(p, "interface proto.Column", colIface != nil) {
+		return
+	}
+	isColumnLike := func(t types.Type) bool {
+		if sl, ok := t.Underlying().(*types.Slice); ok {
+			t = sl.Elem()
+		}
+		it, ok := t.Underlying().(*types.Interface)
+		if !ok {
+			return false
+		}
+		ms := types.NewMethodSet(t)
+		_ = it
+		return ms.Lookup(nil, "EncodeColumn") != nil || ms.Lookup(nil, "DecodeColumn") != nil
+	}
+	n := 0
+	sc := p.Pkgs[core.PkgProto].Types.Scope()
+	for _, name := range sc.Names() {
+		tn, ok := sc.Lookup(name).(*types.TypeName)
+		if !ok || tn.IsAlias() {
+			continue
+		}
+		named, ok := tn.Type().(*types.Named)
+		if !ok {
+			continue
+		}
+		var fields []string
+		switch u := named.Underlying().(type) {
+		case *types.Struct:
+			for i := 0; i < u.NumFields(); i++ {
+				if isColumnLike(u.Field(i).Type()) {
+					fields = append(fields, u.Field(i).Name())
+				}
+			}
+		case *types.Slice:
+			if isColumnLike(u) {
+				fields = append(fields, "[]")
+			}
+		}
+		if len(fields) == 0 {
+			continue
+		}
+		// must itself be a column (has DecodeColumn in its pointer method set)
+		ms := types.NewMethodSet(types.NewPointer(named))
+		if ms.Lookup(nil, "DecodeColumn") == nil && ms.Lookup(tn.Pkg(), "DecodeColumn") == nil {
+			continue
+		}
+		n++
+		sort.Strings(fields)
+		for _, m := range []string{"EncodeState", "DecodeState", "Prepare"} {
+			key := "wrapper/" + name + "/" + m
+			if m == "Prepare" && (name == "ColLowCardinality" || name == "ColLowCardinalityRaw") {
+				c.R.Ok(rule, key, cfg, "", "oracle: no Preparable column is valid inside LowCardinality").Trivial = true
+				continue
+			}
+			fn := methodOf(p, named, m)
+			if fn == nil {
+				what := "the state prefix of an inner LowCardinality/JSON column is neither written nor read through this wrapper (8 bytes of garbage shift the stream)"
+				if m == "Prepare" {
+					what = "an inner Preparable column (Enum, LowCardinality) is never prepared through this wrapper: it is encoded with stale or empty keys"
+				}
+				c.R.Bad(rule, key, cfg, p.Pos(tn.Pos()), name+" does not implement "+m+": "+what)
+				continue
+			}
+			// each field receives the call
+			missing := []string{}
+			for _, f := range fields {
+				found := false
+				for fnc := range core.StaticReach(fn, 1) {
+					for _, call := range core.Calls(fnc) {
+						cf := core.CalleeFunc(call)
+						if cf == nil || cf.Name() != m {
+							continue
+						}
+						var rv ssa.Value
+						if call.Common().IsInvoke() {
+							rv = call.Common().Value
+						} else if len(call.Common().Args) > 0 {
+							rv = call.Common().Args[0]
+						}
+						ap := accessPath(rv, 0)
+						if f == "[]" && strings.Contains(ap, "[]") || strings.Contains(ap, "."+f) {
+							found = true
+						}
+					}
+				}
+				if !found {
+					missing = append(missing, f)
+				}
+			}
+			if len(missing) > 0 {
+				c.R.Bad(rule, key, cfg, p.Pos(fn.Pos()), name+"."+m+" does not forward to inner column(s) "+strings.Join(missing, ", "))
+			} else {
+				c.R.Ok(rule, key, cfg, p.Pos(fn.Pos()), "forwards to "+strings.Join(fields, ", "))
+			}
+		}
+	}
+	c.R.Count("wrapper column types", n)
+	c.R.Floor(rule, cfg, n, 6)
+}
+
+// ruleElementWidth: fixed-width codecs agree on the element width with the in-memory size.
+func ruleElementWidth(c *Ctx, p *core.Program, rule string) {
+	c.R.Rule(rule, "for every fixed-width column (a named slice type whose codecs move raw bytes) the constant element width used by EncodeColumn, WriteColumn and DecodeColumn (the factor multiplying the row count / slice length, absent = 1) is the same in all three and equals the in-memory size of the element type under the configuration's types.Sizes")
+	cfg := p.Cfg.Name
+	sizes := p.Pkgs[core.PkgProto].TypesSizes
+	n := 0
+	for _, ct := range columnTypes(p) {
+		sl, ok := ct.Underlying().(*types.Slice)
+		if !ok {
+			continue
+		}
+		if _, isIface := sl.Elem().Underlying().(*types.Interface); isIface {
+			continue
+		}
+		if ct.TypeParams().Len() > 0 {
+			continue
+		}
+		want := sizes.Sizeof(sl.Elem())
+		key := "width/" + ct.Obj().Name()
+		var got []string
+		bad := false
+		found := 0
+		for _, mn := range []string{"EncodeColumn", "WriteColumn", "DecodeColumn"} {
+			fn := methodOf(p, ct, mn)
+			if fn == nil || fn.Blocks == nil {
+				continue
+			}
+			w, ok := widthFactor(fn)
+			if !ok {
+				continue
+			}
+			found++
+			got = append(got, sprintf("%s=%d", mn, w))
+			if w != want {
+				bad = true
+			}
+		}
+		if found == 0 {
+			continue
+		}
+		n++
+		if bad {
+			c.R.Bad(rule, key, cfg, p.Pos(ct.Obj().Pos()), sprintf("element width disagrees with Sizeof(%s)=%d: %s", sl.Elem(), want, strings.Join(got, " ")))
+		} else {
+			c.R.Ok(rule, key, cfg, p.Pos(ct.Obj().Pos()), sprintf("Sizeof=%d; %s", want, strings.Join(got, " ")))
+		}
+	}
+	c.R.Count("fixed-width columns["+cfg+"]", n)
+	c.R.Floor(rule, cfg, n, 25)
+}
+
+// widthFactor finds the constant that multiplies a length / row count in fn
+// (size*len(v), rows*size, s.Len *= size); 1 when lengths are used unscaled
+// and the function moves raw bytes; ok=false when fn delegates entirely.
+func widthFactor(fn *ssa.Function) (int64, bool) {
+	var factors []int64
+	moves := false
+	for _, b := range fn.Blocks {
+		for _, in := range b.Instrs {
+			switch x := in.(type) {
+			case *ssa.BinOp:
+				if x.Op != token.MUL {
+					continue
+				}
+				if k, ok := core.ConstInt(x.Y); ok && k > 0 && k <= 4096 {
+					factors = append(factors, k)
+				} else if k, ok := core.ConstInt(x.X); ok && k > 0 && k <= 4096 {
+					factors = append(factors, k)
+				}
+			case *ssa.Call:
+				if f := core.CalleeFunc(x); f != nil {
+					switch {
+					case core.IsMethod(f, core.PkgProto, "Reader", "ReadRaw"), core.IsMethod(f, core.PkgProto, "Reader", "ReadFull"), core.IsMethod(f, core.PkgProto, "Writer", "ChainWrite"):
+						moves = true
+					}
+				}
+				if bi, ok := x.Call.Value.(*ssa.Builtin); ok && (bi.Name() == "append" || bi.Name() == "copy") {
+					moves = true
+				}
+			}
+		}
+	}
+	if len(factors) == 0 {
+		if moves {
+			return 1, true
+		}
+		return 0, false
+	}
+	// all factors must agree
+	for _, f := range factors {
+		if f != factors[0] {
+			return -1, true
+		}
+	}
+	return factors[0], true
 }
